@@ -188,7 +188,11 @@ Fixpoint search_loop (fuel : nat) (h : heap) (v : view) (slm : slmode) (vol pare
                 else if check_permission m OpenLookup (v_user v)
                      then search_loop f h v slm vol c pi1 slcount saved
                      else ret EPermDenied
-            | Some (NFile _ _ _ _) => if last then ret EFileExists else ret ENotADirectory
+            | Some (NFile _ _ _ _) =>
+                (* vfs.err.NotADirectory and vfs.err.NoSuchDir are the SAME value on Windows (ErrWinPathNotFound,
+                   errors.go Errors.SetOSType), and the callers compare error values (isNotExist) *)
+                if last then ret EFileExists
+                else ret (match v_os v with Windows => ENoSuchDir | Linux => ENotADirectory end)
             | Some (NSym link _) =>
                 let slcount' := S slcount in
                 if last && slmode_eqb slm SlLstat then ret EFileExists
@@ -276,8 +280,8 @@ Definition delete_node (h : heap) (c : nat) : heap :=
   match get h c with
   | Some (NDir _ m) => upd h c (NDir [] m)
   | Some (NFile d k i m) =>
-      let k' := (k - 1)%Z in
-      upd h c (NFile (if Z.eqb k' 0 then [] else d) k' i m)
+      (* the data stay for the handles still open on the node *)
+      upd h c (NFile d (k - 1)%Z i m)
   | Some (NSym _ m) => upd h c (NSym [] m)
   | None => h
   end.
@@ -349,7 +353,7 @@ Definition mkdir (s : fsys) (v : view) (name : str) (perm : N) : fsys * res :=
       let r := search_node s v name SlLstat in
       if negb (is_not_exist (sr_err r)) || negb (pi_is_last (sr_pi r)) then (s, RFail (sr_err r))
       else match sr_parent r with
-           | None => (s, RPanic)
+           | None => (s, RFail (sr_err r))     (* the path is a volume that does not exist *)
            | Some parent =>
                if negb (perm_on (f_heap s) parent (N.lor OpenWrite OpenLookup) (v_user v)) then (s, RFail EPermDenied)
                else
@@ -387,7 +391,7 @@ Definition mkdir_all (s : fsys) (v : view) (path : str) (perm : N) : fsys * res 
       | Some (NFile _ _ _ _) => (s, RErrPath ENotADirectory (pi_left_part (sr_pi r)))
       | _ => (* symlink child (loop budget exceeded): falls through to the creation loop *)
           match sr_parent r with
-          | None => (s, RPanic)
+          | None => (s, RFail (sr_err r))     (* the volume does not exist *)
           | Some parent =>
               if negb (perm_on h parent (N.lor OpenWrite OpenLookup) (v_user v)) then (s, RFail EPermDenied)
               else (mkdir_all_loop (S (length (pi_path (sr_pi r)))) s v parent (sr_pi r) perm, ROk)
@@ -395,7 +399,7 @@ Definition mkdir_all (s : fsys) (v : view) (path : str) (perm : N) : fsys * res 
       end
   | None =>
       match sr_parent r with
-      | None => (s, RPanic)
+      | None => (s, RFail (sr_err r))     (* the volume does not exist *)
       | Some parent =>
           if negb (perm_on h parent (N.lor OpenWrite OpenLookup) (v_user v)) then (s, RFail EPermDenied)
           else (mkdir_all_loop (S (length (pi_path (sr_pi r)))) s v parent (sr_pi r) perm, ROk)
@@ -426,7 +430,7 @@ Definition open_file (s : fsys) (v : view) (view_ix : nat) (name : str) (flag pe
           else if has om OpenCreateExcl then (s, inl (RFail EFileExists))
           else
             let d1 := if has om OpenTruncate then [] else d in
-            let at_ := if has om OpenAppend then Z.of_nat (length d1) else 0%Z in
+            let at_ := 0%Z in      (* every new handle starts at offset 0, O_APPEND or not (Write moves to the end) *)
             (with_heap s (upd h c (NFile d1 k i m)), inr (new_handle c view_ix name at_ om))
       | Some (NDir _ m) =>
           if has om OpenCreateExcl then (s, inl (RFail EFileExists))
@@ -438,7 +442,7 @@ Definition open_file (s : fsys) (v : view) (view_ix : nat) (name : str) (flag pe
     if is_not_exist e then
       if negb (has om OpenCreate) then (s, inl (RFail e))
       else match sr_parent r with
-           | None => (s, inl RPanic)
+           | None => (s, inl (RFail e))
            | Some parent =>
                if negb (perm_on h parent (N.lor OpenWrite OpenLookup) (v_user v))
                then (s, inl (RFail EPermDenied))
@@ -572,6 +576,8 @@ Definition rename (s : fsys) (v : view) (oldpath newpath : str) : fsys * res :=
                    end
                | None => move h
                end
+         | Some _, Some _, None =>      (* newpath is a volume that does not exist *)
+             (s, if is_not_exist (sr_err rn) then RFail (sr_err rn) else RPanic)
          | _, _, _ => (s, RPanic)
          end.
 
@@ -587,7 +593,7 @@ Definition link (s : fsys) (v : view) (oldname newname : str) : fsys * res :=
         if negb (is_not_exist (sr_err rn)) then (s, RFail (if win v then EW_AlreadyExists else sr_err rn))
         else if negb (pi_is_last (sr_pi rn)) then (s, RFail (sr_err rn))
         else match sr_parent rn with
-             | None => (s, RPanic)
+             | None => (s, RFail (sr_err rn))
              | Some np =>
                  let h := f_heap s in
                  if negb (perm_on h np OpenWrite (v_user v)) then (s, RFail EPermDenied)
@@ -605,7 +611,7 @@ Definition symlink (s : fsys) (v : view) (oldname newname : str) : fsys * res :=
   let r := search_node s v newname SlLstat in
   if negb (is_not_exist (sr_err r)) || negb (pi_is_last (sr_pi r)) then (s, RFail (sr_err r))
   else match sr_parent r with
-       | None => (s, RPanic)
+       | None => (s, RFail (sr_err r))
        | Some parent =>
            if negb (perm_on (f_heap s) parent OpenWrite (v_user v)) then (s, RFail EPermDenied)
            else (create_symlink s v parent (pi_part (sr_pi r)) (clean (v_os v) oldname), ROk)
